@@ -96,6 +96,32 @@ Theorem C14_never_enrolled_unregistered : forall evs p, wf evs ->
 Proof. exact never_enrolled_unregistered. Qed.
 Print Assumptions C14_never_enrolled_unregistered.
 
+(* Inbound announcement (tail of handleConnectReq: exists := addPeer(..); if exists { reset; return };
+   notifier.Connected( *peer ) -- call sites regenerated from the source).  Connected is announced
+   exactly when this very call registered the peer: not registered before, registered afterwards ... *)
+Theorem C14_connected_iff_registered_now : forall evs c pe closed, wf (evs ++ [Enrol c pe closed]) ->
+  (inbound_announces (run evs) c pe closed = true <->
+   registered (run evs) (remote c) = false /\
+   registered (run (evs ++ [Enrol c pe closed])) (remote c) = true).
+Proof. exact announce_iff. Qed.
+Print Assumptions C14_connected_iff_registered_now.
+
+(* ... and then the connection was open, is tracked, and both maps hold exactly the record that is
+   announced; a connection that had already closed is never announced.  The outbound path (Connect)
+   does not call the notifier at all. *)
+Theorem C14_connected_details : forall evs c pe closed, wf (evs ++ [Enrol c pe closed]) ->
+  inbound_announces (run evs) c pe closed = true ->
+  closed = false /\
+  get (remote c) (overlays (run (evs ++ [Enrol c pe closed]))) = Some pe /\
+  get (p_addr pe) (underlays (run (evs ++ [Enrol c pe closed]))) = Some (remote c) /\
+  open_enrolled (evs ++ [Enrol c pe closed]) c = true.
+Proof. exact announce_details. Qed.
+Print Assumptions C14_connected_details.
+
+Theorem C14_outbound_never_announces : outbound_announces = false.
+Proof. exact outbound_never_announces. Qed.
+Print Assumptions C14_outbound_never_announces.
+
 (* The nil dereference in Disconnected is unreachable in well-formed histories ... *)
 Theorem C14_no_panic : forall evs, wf evs -> panicked (run evs) = false.
 Proof. exact no_panic. Qed.
@@ -127,3 +153,11 @@ Theorem C14_handlers_refuted : exists evs s p pe,
   ctx_cancelled (run_v0_wrapper evs) s = false.
 Proof. exact handlers_refuted_v0. Qed.
 Print Assumptions C14_handlers_refuted.
+
+(* The first form of the closed-connection repair (add_peer_v1: the closed branch answered whether
+   the address was known) announced a peer that it had not registered. *)
+Theorem C14_connected_refuted : exists evs c pe closed, wf (evs ++ [Enrol c pe closed]) /\
+  inbound_announces_with add_peer_v1 (run_with add_peer_v1 true evs) c pe closed = true /\
+  registered (run_with add_peer_v1 true (evs ++ [Enrol c pe closed])) (remote c) = false.
+Proof. exact announce_refuted_v1. Qed.
+Print Assumptions C14_connected_refuted.
